@@ -23,6 +23,8 @@ SPECIALISATIONS = [(pc, stab) for pc in (False, True) for stab in (False, True)]
 def run(rep, repo, tier):
     for k, v in RULES.items():
         rep.rule(k, v)
+    from ..defined import check_defined
+    check_defined(rep, repo, 'C01.R3', [repo.method('Solver', '__init__'), repo.method('Solver', 'solve'), repo.method('Solver', 'get_results_short'), repo.method('Solver', 'get_results_long')], 'solver path')
     rep.assumptions += ['A1 well-formed instance', 'A3 PuLP semantics of LpVariable / += / solve', 'A6 CBC returns exact 0/1 values']
     crit_sets = [[], [lpfacts.crit_config('MAXSIZE')]]
     if tier == 'thorough':
